@@ -32,7 +32,7 @@ def _acyclic(n, edges):
     return not any(alive)
 
 
-def order(n, kind):
+def order(n, kind, same_names=False):
     """kind: '>' (holder on the left), '<' (holder on the right), '-' , or 'mix' (symbolic per edge)"""
     pairs = [(i, j) for i in range(n) for j in range(n) if i != j]
     perms = list(itertools.permutations(range(n)))
@@ -43,12 +43,17 @@ def order(n, kind):
     def build(a):
         from pydbml import Database
         from pydbml.classes import Table, Column, Reference
-        tables = [Table(f't{i}', columns=[Column('id', 'int'), Column('x', 'int')]) for i in range(n)]
+        if same_names:
+            # same bare name in different schemas: the table is identified by schema + name, not by name alone
+            tables = [Table('t', schema=f's{i}', columns=[Column('id', 'int'), Column('x', 'int')]) for i in range(n)]
+        else:
+            tables = [Table(f't{i}', columns=[Column('id', 'int'), Column('x', 'int')]) for i in range(n)]
         db = Database()
         for idx in perms[a['perm']]:
             db.add(tables[idx])
         held = [0] * n        # number of '>' / '<' inline references whose FOREIGN KEY clause lives in table i
         edges = []
+        refs = []
         for i, j in pairs:
             if a[f'e{i}{j}']:
                 k = kind if kind != 'mix' else ('>', '<', '-')[a[f'k{i}{j}']]
@@ -58,15 +63,18 @@ def order(n, kind):
                 else:
                     r = Reference(k, tables[i].columns[1], tables[j].columns[0], inline=True)
                 db.add(r)
+                refs.append((r, i, k))
                 if k != '-':
                     held[i] += 1
                 edges.append((i, j))
-        return db, tables, edges, held
+        if same_names:
+            held = [sum(held)] * n     # the unchanged tree counts by bare name (only used by the known-finding region below)
+        return db, tables, edges, held, refs
 
     def body(a):
         if not _acyclic(n, [(i, j, a[f'e{i}{j}']) for i, j in pairs]):
             return ''
-        db, tables, edges, held = build(a)
+        db, tables, edges, held, refs = build(a)
         try:
             sql1 = db.sql
             sql2 = db.sql
@@ -75,20 +83,31 @@ def order(n, kind):
         reached()
         if sql1 != sql2:
             return 'rendering twice gives different text'
+        if refs and kind != 'mix':
+            # "depends only on the model": edit one reference in place after rendering, compare with a freshly built equal model
+            r0, _, k0 = refs[0]
+            r0.inline = False
+            a2 = dict(a)
+            db_f, _, _, _, refs_f = build(a2)
+            refs_f[0][0].inline = False
+            if db.sql != db_f.sql:
+                return 'after an in-place edit the rendering differs from that of a freshly built identical model (stale order)'
+            r0.inline = True
         r = ddl.read_or_none(sql1)
         if r is None:
             return 'DDL not readable'
         created = [s[1][-1] for s in r[0] if s[0] == 'table']
-        names = [f't{i}' for i in range(n)]
+        created = [s[1] for s in r[0] if s[0] == 'table']
+        names = [(f's{i}', 't') if same_names else (f't{i}',) for i in range(n)]
         if len(created) != n or any(created.count(x) != 1 for x in names):
             return 'CREATE TABLE statements are not a permutation of the tables'
         pos = {x: created.index(x) for x in names}
-        ins = {f't{idx}': p for p, idx in enumerate(perms[a['perm']])}
+        ins = {names[idx]: p for p, idx in enumerate(perms[a['perm']])}
         for i, j in edges:
-            holder, target = f't{i}', f't{j}'
+            holder, target = names[i], names[j]
             # the FOREIGN KEY clause must really sit in the holder's CREATE TABLE
-            st = [s for s in r[0] if s[0] == 'table' and s[1][-1] == holder][0]
-            if not any(fk[2][-1] == target for fk in st[4]):
+            st = [s for s in r[0] if s[0] == 'table' and s[1] == holder][0]
+            if not any(fk[2] == target for fk in st[4]):
                 return 'inline reference is not a clause of its key holder table'
             if pos[target] < pos[holder]:
                 continue
@@ -103,7 +122,7 @@ def order(n, kind):
         return {'tables': n, 'insertion_order': [f't{i}' for i in perms[a['perm']]],
                 'inline_refs': [f"t{i} {kind if kind != 'mix' else ('>', '<', '-')[a[f'k{i}{j}']]} t{j}" for i, j in pairs if a[f'e{i}{j}']]}
 
-    return Harness(body, args, describe=describe, bounds={'n': n, 'kind': kind})
+    return Harness(body, args, describe=describe, bounds={'n': n, 'kind': kind, 'same_names': same_names})
 
 
 def instances(tier):
@@ -112,10 +131,15 @@ def instances(tier):
         for k in ('>', '<', '-'):
             out.append({'name': f'order/n3/{k}', 'factory': 'order', 'params': {'n': 3, 'kind': k}, 'timeout': 280, 'native_limit': 300})
         out.append({'name': 'order/n2/mix', 'factory': 'order', 'params': {'n': 2, 'kind': 'mix'}, 'timeout': 200, 'native_limit': 100})
+        out.append({'name': 'order/n3/>/same_names', 'factory': 'order', 'params': {'n': 3, 'kind': '>', 'same_names': True}, 'timeout': 280,
+                    'native_limit': 300})
     else:
         for k in ('>', '<', '-'):
             out.append({'name': f'order/n3/{k}', 'factory': 'order', 'params': {'n': 3, 'kind': k}, 'timeout': 1200, 'native_limit': 400})
             out.append({'name': f'order/n4/{k}', 'factory': 'order', 'params': {'n': 4, 'kind': k}, 'timeout': 6000, 'path_timeout': 120,
                         'native_limit': 2000})
         out.append({'name': 'order/n3/mix', 'factory': 'order', 'params': {'n': 3, 'kind': 'mix'}, 'timeout': 6000, 'native_limit': 2000})
+        for k in ('>', '<', '-'):
+            out.append({'name': f'order/n3/{k}/same_names', 'factory': 'order', 'params': {'n': 3, 'kind': k, 'same_names': True},
+                        'timeout': 1200, 'native_limit': 400})
     return out
